@@ -27,7 +27,7 @@ def write(prop, tier, seed, out, wall):
             'canary': out['canary'],
             'extraction_rewrites': out['rewrites'], 'injected_rewrites': [list(x) for x in out['injected_rewrites']],
             'bounded_parts': out['bounded'],
-            'not_decided': P.NOT_DECIDED.get(prop, []),
+            'not_decided': P.NOT_DECIDED.get(prop, []) + out.get('not_decided_dyn', []),
             'exhaustive': False,
         },
         'assumptions': out['trusted'],
